@@ -331,6 +331,17 @@ func (app *App) txDeliverer() txDeliverer {
 
 		handler := txCtx.Router.Handler(tx.Type)
 
+		// the block proposer is not trusted: a delivered transaction gets the same signature, fee
+		// and field validation as one entering the mempool, and is rejected without effect if it fails
+		if _, err := handler.Validate(txCtx, *tx); err != nil {
+			app.logger.Debug("Deliver Tx invalid: ", err.Error())
+			app.Context.deliver.DiscardTxSession()
+			return ResponseDeliverTx{
+				Code: CodeNotOK.uint32(),
+				Log:  err.Error(),
+			}
+		}
+
 		gas := txCtx.State.ConsumedGas()
 
 		ok, response := handler.ProcessDeliver(txCtx, tx.RawTx)
